@@ -10,8 +10,8 @@ from the property statement.  Regular expressions are an oracle parameter `rx` o
   exactly what the specification demands (an answer on one side iff on the other).
 * `matches_total` — for a well-formed term (`WellFormed`: both sides inside the modelled literal
   classes, and for `=~` the pattern compiles) the comparison returns a Boolean; and whatever the
-  input, the only crash outcome the model can reach is `re.error` for an invalid pattern
-  (`matches_crash_only_invalid_regex`).
+  input, no crash outcome is reachable (`matches_never_crashes`); the only YAML Path error is the
+  one for an invalid pattern (`matches_error_only_invalid_regex`).
 * `inverted_is_complement` — at the segment, over any sequence of scalar candidates, the plain
   search yields exactly the positions whose candidate matches and the inverted search exactly the
   others, both in document order (`plain_is_filter`, `inverted_is_complement`,
@@ -122,11 +122,29 @@ theorem matches_total (rx : Str → Str → Option Bool) (m : Method) (value : S
     cases typedOfScalar value <;> cases typedValue term <;> exact ⟨_, rfl⟩
   all_goals exact ⟨_, rfl⟩
 
-/-- Whatever the input, the only crash the comparison can end in is `re.error`, and only for the
-regex operator with a pattern that does not compile. -/
-theorem matches_crash_only_invalid_regex (rx : Str → Str → Option Bool) (m : Method) (value : Scalar)
-    (term : Str) (k : CrashKind) (h : searchMatches rx m value term = .error (.crash k)) :
-    k = .reError ∧ m = .regex ∧ rx term (pyStr value) = none := by
+/-- Whatever the input, the comparison never ends in a crash outcome (any Python exception outside
+the library's own family): since fix 149bd27 an invalid regular expression is a YAML Path error. -/
+theorem matches_never_crashes (rx : Str → Str → Option Bool) (m : Method) (value : Scalar)
+    (term : Str) (k : CrashKind) : searchMatches rx m value term ≠ .error (.crash k) := by
+  intro h
+  unfold searchMatches searchTyped at h
+  split at h
+  · cases h
+  · cases m
+    case regex =>
+      cases hr : rx term (pyStr value) with
+      | none => rw [hr] at h; cases h
+      | some b => rw [hr] at h; cases h
+    case equals =>
+      revert h
+      cases typedOfScalar value <;> cases typedValue term <;> intro h <;> cases h
+    all_goals cases h
+
+/-- The only YAML Path error the comparison raises is the one for a regular expression that does
+not compile. -/
+theorem matches_error_only_invalid_regex (rx : Str → Str → Option Bool) (m : Method) (value : Scalar)
+    (term : Str) (y : YKind) (h : searchMatches rx m value term = .error (.ypath y)) :
+    y = .generic ∧ m = .regex ∧ rx term (pyStr value) = none := by
   unfold searchMatches searchTyped at h
   split at h
   · cases h
@@ -239,7 +257,7 @@ example : searchMatches noRegex .le (.float 25 (-1)) "3".toList = .ok true := by
 example : searchMatches noRegex .startsWith (.str "1.50".toList) "1.50".toList = .ok true := by decide +kernel
 example : searchMatches noRegex .endsWith (.float 15 (-1)) ".5".toList = .ok true := by decide +kernel
 example : searchMatches noRegex .contains .null "on".toList = .ok true := by decide +kernel
-example : searchMatches noRegex .regex (.int 5) "*".toList = .error (.crash .reError) := by decide +kernel
+example : searchMatches noRegex .regex (.int 5) "*".toList = .error (.ypath .generic) := by decide +kernel
 example : WellFormed noRegex .equals (.str "abc".toList) "1e5".toList = true := by decide +kernel
 example : WellFormed noRegex .regex (.int 5) "*".toList = false := by decide +kernel
 example : searchScan noRegex true .gt "4".toList [.int 5, .int 3, .str "x".toList, .float 45 (-1)] 0
